@@ -1,5 +1,6 @@
 SPECIFICATION Spec
 CONSTANTS
   MBs <- MCMBs
-INVARIANTS TypeOK IsSet IterContract
+VIEW DesignView
+INVARIANTS TypeOK IsSet IterContract QueryContract
 PROPERTIES FrameOK
